@@ -12,3 +12,33 @@ package parser
 
 // operand widths: read from the composite literal on every run
 //@ table OpcodeOperands
+
+// ReadOperands decodes operands of the given widths (big endian). Width lists
+// come from OpcodeOperands and have at most two entries.
+//@ func ReadOperands
+//@   props C02
+//@   requires short: len(numOperands) <= 2
+//@   requires width0: len(numOperands) >= 1 ==> numOperands[0] == 1 || numOperands[0] == 2 || numOperands[0] == 4
+//@   requires width1: len(numOperands) == 2 ==> numOperands[1] == 1 || numOperands[1] == 2 || numOperands[1] == 4
+//@   requires enough: len(numOperands) == 0 || (len(numOperands) == 1 && numOperands[0] <= len(ins))
+//@                      || (len(numOperands) == 2 && numOperands[0] + numOperands[1] <= len(ins))
+//@   assigns nothing
+//@   loop 0 unroll 3
+//@   ensures count: len(operands) == len(numOperands)
+//@   ensures off0: len(numOperands) == 0 ==> offset == 0
+//@   ensures off1: len(numOperands) == 1 ==> offset == numOperands[0]
+//@   ensures off2: len(numOperands) == 2 ==> offset == numOperands[0] + numOperands[1]
+//@   ensures op0_w1: len(numOperands) >= 1 && numOperands[0] == 1 ==> operands[0] == int(ins[0])
+//@   ensures op0_w2: len(numOperands) >= 1 && numOperands[0] == 2 ==> operands[0] == int(ins[1]) | int(ins[0])<<8
+//@   ensures op0_w4: len(numOperands) >= 1 && numOperands[0] == 4
+//@              ==> operands[0] == int(ins[3]) | int(ins[2])<<8 | int(ins[1])<<16 | int(ins[0])<<24
+//@   ensures op1_w1: len(numOperands) == 2 && numOperands[1] == 1 ==> operands[1] == int(ins[numOperands[0]])
+//@   ensures nonneg: forall k in 0..len(operands) :: operands[k] >= 0
+
+// AST nodes are read-only for the compiler
+//@ func interface Node.Pos
+//@   assigns nothing
+//@ func interface Node.End
+//@   assigns nothing
+//@ func interface Node.String
+//@   assigns nothing
